@@ -16,7 +16,7 @@
  *                            B<hex> served block, D<hex> discarded block, S<n> set_max_capacity
  *   connv / connx            same, plus nghttp2's inflater on the same blocks: trailing "x=ok" |
  *                            "x=BAD@<op>" (connv: both must accept and agree; connx: if both
- *                            accept they must agree modulo lshpack's trailing-space name trim)
+ *                            accept they must agree)
  * tool ops (producers of header blocks; output consumed by the check, not by the model):
  *   lsenc <op>...            real lshpack encoder (history on, as h2_init_con does):
  *                            block "name:value:flags,..." -> hex, "C<n>" set_max_capacity;
@@ -27,8 +27,8 @@
  *   resp <srvtag 0|1> <item>...   responses of one connection through h2_send_headers() /
  *                            h2_send_hpack(); the emitted HEADERS(+CONTINUATION) frames are
  *                            checked for framing, the block is decoded by nghttp2's inflater:
- *        R<status>/<es>/<op><name>:<value>,...  (op: s=set i=insert a=append; hex) -> "ok:<es>:<fields>" |
- *                            "rst" | "BADFRAMES.."
+ *        R<status>/<es>/<op><name>:<value>,...  (op: s=set i=insert a=append; hex) ->
+ *                            "ok:<es>:<table size updates leading the block, n+m or ->:<fields>" | "rst" | "BADFRAMES.."
  *        I<status>/0/<ops>   interim response through h2_send_1xx() / h2_send_headers_block()
  *        T0/1/<ops>          response trailers through h2_send_end_stream_trailers() -> "ok:1:<fields>" | "data"
  *        C<n>  peer SETTINGS_HEADER_TABLE_SIZE (h2_parse_frame_settings)   -> "c"
@@ -234,7 +234,7 @@ static void op_conn(int mode) {
             }
             else {
                 if (nrc != 0 || rc != LSHPACK_OK) ngdone = 1;      /* leniency differs: stop comparing */
-                else if (!fl_same(&lsf, &ngf, 1)) { xbad = k; ngdone = 1; }
+                else if (!fl_same(&lsf, &ngf, 0)) { xbad = k; ngdone = 1; }
             }
         }
         fl_free(&lsf); fl_free(&ngf);
@@ -561,7 +561,6 @@ static void op_resp(void) {
     h2con * const h2c = (h2con *)g_con.hx;
     const int srvtag = atoi(hl_tok[1]);
     nghttp2_hd_inflater *inf; nghttp2_hd_inflate_new(&inf);
-    struct pendupd pu = {0};
     uint32_t sid = 1;
     char date[40]; memset(date, 0, sizeof(date));
     http_date_time_to_str(date, sizeof(date), log_epoch_secs);
@@ -573,10 +572,9 @@ static void op_resp(void) {
                               (uint8_t)(v >> 24), (uint8_t)(v >> 16), (uint8_t)(v >> 8), (uint8_t)v };
             h2_parse_frame_settings(&g_con, pl, 6);
             if (it[0] == 'C') {
-                /* the peer's decoder: new limit, and (since lighttpd never sends it) the dynamic
-                 * table size update a conformant encoder owes it, for the size lighttpd now uses */
+                /* the peer's decoder takes its new limit; the dynamic table size update RFC 7541
+                 * 4.2 asks for must come from lighttpd at the start of the next header block */
                 nghttp2_hd_inflate_change_table_size(inf, v);
-                pend_add(&pu, v > 4096 ? 4096 : v);
                 SEP(); fputs("c", stdout);
             }
             else { SEP(); fputs("f", stdout); }
@@ -620,8 +618,7 @@ static void op_resp(void) {
         size_t wl; unsigned char *w = wq_take(&wl);
         /* frames: HEADERS CONTINUATION* for this stream, END_HEADERS on the last only,
          * END_STREAM only on HEADERS, every frame within the peer's SETTINGS_MAX_FRAME_SIZE */
-        unsigned char *blk = malloc(wl + 17); size_t bl = 0;
-        unsigned char pb[16]; size_t npb = 0;
+        unsigned char *blk = malloc(wl + 1); size_t bl = 0;
         int bad = 0, nfr = 0, done = 0, fes = 0, rst = 0;
         for (size_t o = 0; o < wl && !bad; ) {
             if (wl - o < 9) { bad = 1; break; }
@@ -645,11 +642,19 @@ static void op_resp(void) {
         else if (rst) { SEP(); fputs(rst == 2 ? "data" : "rst", stdout); }
         else {
             struct fldlist ngf = {0};
-            npb = pend_emit(&pu, pb);
-            memmove(blk + npb, blk, bl); memcpy(blk, pb, npb); bl += npb;
             if (0 != ng_block(inf, blk, bl, &ngf)) { SEP(); fputs("NGFAIL", stdout); }
             else {
                 SEP(); printf("ok:%d:", fes);
+                /* dynamic table size updates at the start of the block */
+                int nu = 0;
+                for (size_t o = 0; o < bl && (blk[o] & 0xe0) == 0x20; ++nu) {
+                    uint32_t v = blk[o++] & 0x1f;
+                    if (v == 31) { unsigned sh = 0; uint32_t b;
+                        do { b = o < bl ? blk[o++] : 0; v += (b & 0x7f) << sh; sh += 7; } while ((b & 0x80) && sh < 28); }
+                    printf("%s%u", nu ? "+" : "", v);
+                }
+                if (0 == nu) fputc('-', stdout);
+                fputc(':', stdout);
                 if (0 == ngf.n) fputc('-', stdout);
                 for (int i = 0; i < ngf.n; ++i) {
                     if (i) fputc(',', stdout);
